@@ -1000,6 +1000,11 @@ class Repository(controldir.ControlComponent, _RelockDebugMixin):
         """
         from .tree import InterTree
 
+        if specific_files is not None:
+            # Callers (log) update their own collection between deltas; the
+            # paths followed here must not change under our feet.
+            specific_files = list(specific_files)
+
         # Get the revision-ids of interest
         required_trees = set()
         for revision in revisions:
